@@ -1,4 +1,5 @@
 //! zipconf: conformance harness binding the TLA+ specification in /verif/spec to zip-rs/zip.
+mod cp437;
 mod lexer;
 mod sink;
 mod util;
